@@ -2590,7 +2590,51 @@ def check(ctx):
     _rule4(model, rep)
     _rule5(model, rep)
     _rule6(model, rep)
+    _rule7(ctx, rep)
     return rep
+
+
+def _rule7(ctx, rep):
+    """the stored run id of a node is the run id of the triggering event and nothing else (added by the main session
+    after the independently seeded change C11-1: rerunid() wrote the freshly drawn id back onto the node, so a later
+    timer firing - which does not reset it - reused the stale id instead of drawing a fresh one)"""
+    import ast as _ast
+
+    from ..util import norm as _norm, where as _where
+
+    prog = ctx.prog
+    with rep.rule(
+        'R-C11-7',
+        "the node attribute 'runid' is written only by schedule.organize with the run id of the triggering event",
+        floor=1,
+        breaks='an allocated run id sticks to the node: a later event that carries none (timer firing) reuses the stale id instead of drawing a fresh, strictly larger one',
+    ) as r:
+        org = prog.func('dawgie.pl.schedule.organize')
+        for fn in prog.funcs.values():
+            for c in fn.calls():
+                if (
+                    isinstance(c.func, _ast.Attribute)
+                    and c.func.attr == 'set'
+                    and len(c.args) == 2
+                    and isinstance(c.args[0], _ast.Constant)
+                    and c.args[0].value == 'runid'
+                ):
+                    r.instance()
+                    rep.analysed(fn)
+                    ok = fn.qname == org.qname and isinstance(c.args[1], _ast.Name) and c.args[1].id in org.params()
+                    r.check(
+                        ok,
+                        f'{fn.qname}:{_norm(c)}',
+                        _where(fn, c),
+                        "organize stores the event's run id parameter",
+                        f"{fn.qname} stores a run id on the node ({_norm(c)}): only schedule.organize may, with the run id of the event that requested the work",
+                    )
+            for n in fn.own_nodes():
+                if isinstance(n, _ast.Assign):
+                    for t in n.targets:
+                        if isinstance(t, _ast.Subscript) and isinstance(t.slice, _ast.Constant) and t.slice.value == 'runid' and isinstance(t.value, _ast.Attribute) and t.value.attr == 'attrib':
+                            r.instance()
+                            r.fail(f'{fn.qname}:{_norm(n)}', _where(fn, n), f"{fn.qname} writes the node's runid attribute directly")
 
 
 _F, _M, _CL, _AWS, _ST = 'pl/farm.py', 'pl/message.py', 'pl/worker/cluster.py', 'pl/worker/aws.py', 'pl/state.py'
